@@ -73,7 +73,7 @@ def run(sd, props):
     fired = {}
     global ENV
     env0 = ENV
-    ENV = dict(ENV, VERIF_REPO=target)
+    ENV = dict(ENV, VERIF_REPO=target, VERIF_EVIDENCE_DIR=os.path.join(VERIF, ".work", "seed-evidence"))
     try:
         for p in props:
             rc, out = sh([os.path.join(VERIF, "check"), p, "quick"], cwd=VERIF, timeout=1800)
